@@ -338,6 +338,11 @@ def mps_tree(r, big=False):
         objname = objrow
     elif k < .3 and extra_n:
         objname = extra_n[0]
+    # a file in which no column has an entry in the objective or a constraint row has no variables: the reader rejects it
+    # ("There are no variables") - outside the language of problem files
+    real = {rw["name"] for rw in rows}
+    if not any(e["row"] in real or e["row"] == (objname or objrow) for c in entries for e in c["ent"]):
+        objname = ""
     # SOS sets (marker lines around groups of columns) and a REFROW section: they restrict integer solutions only, the LP is unchanged
     sos, refrow = [], ""
     if len(cols) >= 2 and r.random() < .2:
@@ -645,14 +650,32 @@ def robustness_scenarios(seed, count):
                     t["ranges"].append(dict(row=t["objname"], val=chars(r.choice(["3", "-2", "0"]))))
             body = render_mps(t, r)
         else:
-            # basis files for rob_base.lp (columns x, y; rows c1, c2): every record form over the existing and an unknown name, 0-6 records
-            recs = []
-            for _ in range(r.randint(0, 6)):
-                t = r.choice(["XU", "XL", "UL", "LL", "XU", "XL"])
-                c = r.choice(["x", "y", "x", "y", "nosuch"])
-                recs.append(" %s %s%s" % (t, c, (" " + r.choice(["c1", "c2", "c1", "c2", "nosuch"])) if t[0] == "X" else ""))
+            # basis files for rob_base.lp (columns x, y; rows c1, c2): a valid record set for a random basis, then structural edits of
+            # the record list (a basic column demoted by a later LL/UL record, repeated rows / columns, unknown names, dropped records)
+            cols_, rows_ = ["x", "y"], ["c1", "c2"]
+            nb = r.randint(0, 2)
+            bc = r.sample(cols_, nb)
+            br = r.sample(rows_, nb)
+            recs = [" %s %s %s" % (r.choice(["XU", "XL"]), c, w) for c, w in zip(bc, br)]
+            recs += [" UL %s" % c for c in cols_ if c not in bc and r.random() < .5]
+            for _ in range(r.choice([0, 0, 1, 1, 2])):
+                e = r.random()
+                if e < .3 and bc:
+                    recs.append(" %s %s" % (r.choice(["LL", "UL"]), r.choice(bc)))                    # demote a basic column afterwards
+                elif e < .45 and recs:
+                    recs.insert(r.randint(0, len(recs)), r.choice(recs))                              # repeat a record
+                elif e < .6:
+                    recs.append(" %s %s %s" % (r.choice(["XU", "XL"]), r.choice(cols_), r.choice(rows_)))   # may reuse a row or a column
+                elif e < .7:
+                    recs.append(" %s %s %s" % (r.choice(["XU", "XL"]), r.choice(cols_ + ["nosuch"]), r.choice(rows_ + ["nosuch"])))
+                elif e < .8 and recs:
+                    recs.pop(r.randrange(len(recs)))
+                else:
+                    recs.append(" %s %s" % (r.choice(["LL", "UL"]), r.choice(cols_ + ["nosuch"])))
             body = "NAME b\n" + "\n".join(recs) + ("\n" if recs else "") + "ENDATA\n"
         m = r.random()
+        if kind == "BAS" and m < .65:
+            m = .95
         if m < .35:
             data = mutate_tokens(body, r).encode("latin-1", "replace")
         elif m < .55:
